@@ -6,7 +6,14 @@ export CARGO_NET_OFFLINE=true
 git -C /repo worktree add --detach $WT HEAD >/dev/null 2>&1 || exit 2
 cp -r /repo/target $WT/target
 cd $WT
-DEMO_CMD=$(python3 -c "import json,sys; print(json.load(open('$D/meta.json'))['commands']['demo'])" | sed "s#/tmp/wt-[A-Za-z0-9]*#$WT#g; s#git apply [^&]*&& ##; s# *(with and without.*$##")
+DEMO_CMD=$(python3 - "$D/meta.json" "$WT" <<'PY'
+import json, sys, re
+cmd = json.load(open(sys.argv[1]))["commands"]["demo"]
+cmd = re.sub(r"/tmp/wt-[A-Za-z0-9]*", sys.argv[2], cmd)
+m = re.search(r"((?:CARGO_NET_OFFLINE=true )?cargo test[^#(\n]*)", cmd)
+print("cd %s && %s" % (sys.argv[2], m.group(1).strip() if m else "false"))
+PY
+)
 echo "demo cmd: $DEMO_CMD"
 git apply $D/patch.diff || { echo "RESULT patch-does-not-apply"; cd /; git -C /repo worktree remove --force $WT; exit 1; }
 T=$(cargo test --workspace --no-fail-fast --offline 2>&1 | grep -E "^test result" | awk '{p+=$4; f+=$6} END {print p" passed "f" failed"}')
